@@ -17,7 +17,7 @@ PROPS = {
     "C02": dict(sections=["st.dep", "st.sub", "st.alloc", "st.payout", "ev"], res_ops=["B", "E"], res_kinds=["node_subscribe", "sub_cancel"],
                 rule="non-trivial: a node subscription was removed (its ledger paid+refunded=deposit was checked)"),
     "C03": dict(sections=[], res_ops=["B", "E"], res_kinds=[], halt=True,
-                rule="non-trivial: a block hook processed due records (settlement, payout, expiry) in the history"),
+                rule="non-trivial: a block hook processed due records and moved coins (settlement, payout, refund) in the history", nt_from="C01"),
     "C04": dict(sections=["st.sub", "st.sess", "st.node", "st.payout", "st.ix.node_q", "st.ix.sub_q", "st.ix.sess_q", "st.ix.pay_q", "st.now", "ev"],
                 res_ops=["B", "E"], res_kinds=["sub_cancel", "sess_end", "node_update_status", "sess_update"],
                 rule="non-trivial: a subscription or session was demoted or removed in the history"),
